@@ -27,6 +27,13 @@ func init() {
 const fl = "tools/flow."
 
 func checkC18(c *Ctx) {
+	// errcheck-style baseline: a newly discarded error in the package is a dropped protocol/validation step
+	c.checkErrorDiscipline("errors.no-new-dropped-error", "tools/flow", map[string]string{
+		"(*Controller).findRootTasks|cue.Value.Fields": "iteration over a value that was validated before; an error yields no tasks and surfaces as invalid root",
+		"(*Controller).findRootTasks|cue.Value.List": "as above",
+		"(*Controller).markReady|internal/cuedebug.Init": "debug flag initialisation",
+		"(*Controller).markTaskDependencies|internal/core/dep.Visit": "dep.Visit only returns the visitor's error, and the visitor never returns one",
+	})
 	p := c.pkg("tools/flow")
 	// resolve the enum and the state field
 	stateT, _ := p.Types.Scope().Lookup("State").(*types.TypeName)
